@@ -314,6 +314,9 @@ def run(ctx):
     ctx.counted('str vs bytes', evals, len(nontriv), [{'pattern': pats[0]}, {'byte': '0xe9', 'form': '[!z-a]'}])
     from props import fringe
     fringe.ascii_controls(ctx)
+    from props import glue
+    glue.bytes_dirfd_hidden(ctx)
+    glue.pathlike_names(ctx)
     return ctx.finish(RULE)
 
 
